@@ -309,7 +309,7 @@ pub fn run_scenario(sc: Arc<Scenario>, out: Arc<Mutex<DriverOut>>) {
     ctx.out.lock().unwrap().completed_script = true;
     rec::push(RecKind::Driver { what: "settle".into() });
 
-    if sc.knobs.settle {
+    {
         // cancel every session the executor knows that is still running (children included)
         let ids: Vec<(u32, rufsm::fsm::EventSender)> = {
             let st = ctx.executor.state.lock().unwrap();
@@ -336,7 +336,7 @@ pub fn run_scenario(sc: Arc<Scenario>, out: Arc<Mutex<DriverOut>>) {
             }
         }
     }
-    if sc.knobs.settle {
+    {
         // let detached tasks (cancelled children, stopped timer tasks) run to their end so that their
         // coroutines are reusable
         driver::wait_until(|| rec::with(|r| r.rfsm_threads_live == 0 && r.timer_tasks_live == 0));
